@@ -235,6 +235,16 @@ def run(ctx):
             if req != got:
                 ctx.violation('Select.chain.where-differs-from-filters', 'filters requested %r, WHERE renders %r (%r)' % (req, got, text),
                               case={'chain': ops, 'action': action}, expected=req, actual=got, theorem='C37_parts_chain')
+            else:
+                fops = [o for o in ops if o[0] in ('filter', 'ftoken', 'fraw')]
+                for o_, fr in zip(fops, parsed['parts'][0][1]):
+                    if o_[0] == 'filter' and o_[4][0] == 'fn' and o_[2] != 2:
+                        want = o_[4][2] - H.fn_off(o_[4]) * 60000
+                        have = ctxd.get(str(fr[2][0]))
+                        if have != want:
+                            ctx.violation('Select.chain.TimeUUID-function.not-the-requested-instant',
+                                          'filter %r: placeholder %%(%s)s is bound to %r ms, the datetime given is the instant %r ms (%r)' % (o_, fr[2][0], have, want, text),
+                                          case={'chain': ops, 'action': action}, expected=want, actual=have, theorem='C37_own_value')
             continue
         with H.Recorder() as rec:
             try:
@@ -270,6 +280,44 @@ def run(ctx):
         cases.append('obs_eqb (observe %s) %s' % (model_st, H.coq_obs(parsed, items)))
         meta.append(('chain-' + action, ops, text))
 
+    # ---- instance-level conditional updates: instance.iff(...).update(...) -> UPDATE ... IF all conditions; DELETE nulled IF the rest
+    SC = {4: 'f4', 5: 'f5', 6: 'a6'}
+    for _ in range(60 if quick else 600):
+        cols = [4, 5, 6]
+        conds = [(f, rng.choice([1, 2, 3])) for f in rng.sample(cols, rng.randint(1, 3))]
+        upd = rng.sample(cols, rng.randint(1, 2))
+        nulled = [f for f in cols if f not in upd][:rng.randint(1, 2)]
+        if not nulled:
+            nulled, upd = [upd[-1]], upd[:-1]
+        newv = dict((f, rng.choice([7, 8, 9])) for f in upd)
+        inst = M._construct_instance({'f0': 1, 'f1': 2, 'f2': 3, 'f3': 4, 'f4': 1, 'f5': 2, 'f6': 3})
+        kw = dict((SC[f], newv[f]) for f in upd)
+        kw.update((SC[f], None) for f in nulled)
+        spec = {'conds': conds, 'update': newv, 'nulled': nulled}
+        try:
+            with H.Recorder() as rec:
+                inst.iff(**dict((SC[f], v) for f, v in conds)).update(**kw)
+            parsed = [H.parse_statement(t) for t, _ in rec.calls]
+        except (CQLEngineException, H.ParseError) as e:
+            ctx.violation('Model.update.iff.raises-or-unparseable', 'instance conditional update %r: %r' % (spec, e), case={'inst_update': spec},
+                          expected='UPDATE + DELETE', actual=repr(e), theorem='C37_parts_instance_update')
+            continue
+        ctx.case(['inst_update', spec], nontrivial=True, sample={'inst_update': spec, 'emitted': [t for t, _ in rec.calls]})
+        ctx.count('chain_action', 'instance-iff-update')
+        prob = inst_update_oracle(spec, rec.calls, parsed)
+        if prob:
+            ctx.violation('Model.update.iff.%s' % prob[0], prob[1], case={'inst_update': spec}, expected='UPDATE IF all requested conditions; DELETE IF the requested '
+                          'conditions on columns the UPDATE did not rewrite', actual=[t for t, _ in rec.calls], theorem='C37_parts_instance_update')
+        if len(parsed) != 2:
+            continue
+        keys = '[' + '; '.join('CWhere %d true OpEQ (QPlain (VInt %d))' % (f, f + 1) for f in range(4)) + ']'
+        cl = '[' + '; '.join('CWhere %d true OpEQ (QPlain (VInt %d))' % (f, v) for f, v in conds) + ']'
+        asg = '[' + '; '.join('CAssign %d (VInt %d)' % (f, newv[f]) for f in sorted(upd)) + ']'
+        model = '(inst_update_stmts %s %s %s %s)' % (keys, cl, asg, H.zl(sorted(nulled)))
+        obs = [H.coq_obs(p_, [(k, H.canon_val(v)) for k, v in prm.items()]) for p_, (_, prm) in zip(parsed, rec.calls)]
+        cases.append('obs_eqb (observe (fst %s)) %s && obs_eqb (observe (snd %s)) %s' % (model, obs[0], model, obs[1]))
+        meta.append(('inst-update', spec, [t for t, _ in rec.calls]))
+
     if not ok:
         return
     prelude = '''
@@ -294,6 +342,31 @@ Definition tail_eqb (a : option (list Z * list (Z * bool) * Z * bool)) (b : list
                'WhereClause/ConditionalClause in IF, assignment-family clauses in SET, AssignmentClause only in INSERT, delete clauses in DELETE fields',
                'Token() values carry as many partition columns as values (enforced by AbstractQuerySet.filter); IN is not applied to Token/TimeUUID values')
     ctx.trust('harness CQL-text parser and canonicalisation (lib/vf/cqle_stmt.py)')
+
+
+def inst_update_oracle(spec, calls, parsed):
+    """independent of the model: which IF conditions each of the two statements must carry (db field ids, in request order)"""
+    if len(parsed) != 2 or parsed[0]['kind'] != 'Update' or parsed[1]['kind'] != 'Delete':
+        return ('statement-shapes', 'expected UPDATE then DELETE, got %r' % [t for t, _ in calls])
+    want_u = [f for f, _ in spec['conds']]
+    got_u = [fr[1] for fr in dict(parsed[0]['parts'])['C']]
+    if got_u != want_u:
+        return ('update-conditions-differ', 'UPDATE carries IF on %r, requested %r: %r' % (got_u, want_u, calls[0][0]))
+    rewritten = set(fr[1] for fr in dict(parsed[0]['parts'])['A'])
+    want_d = [f for f in want_u if f not in rewritten]
+    got_d = [fr[1] for fr in dict(parsed[1]['parts'])['C']]
+    if got_d != want_d:
+        return ('delete-conditions-differ', 'the follow-up DELETE carries IF on columns %r, but the requested conditions on columns the UPDATE did not '
+                'rewrite are %r (UPDATE rewrote %r): %r ; %r' % (got_d, want_d, sorted(rewritten), calls[0][0], calls[1][0]))
+    for (text, prm), p_ in zip(calls, parsed):
+        phs = re.findall(H.PH, text)
+        if len(set(phs)) != len(phs) or set(phs) != set(prm.keys()):
+            return ('placeholders-differ-from-context', '%r with %r' % (text, sorted(prm.keys(), key=int)))
+        vals = dict(spec['conds'])
+        for fr in dict(p_['parts'])['C']:
+            if prm.get(str(fr[2][0])) != vals.get(fr[1]):
+                return ('condition-value-differs', 'IF on column %d bound to %r, requested %r: %r' % (fr[1], prm.get(str(fr[2][0])), vals.get(fr[1]), text))
+    return None
 
 
 def chain_oracle(st, text, ctxd):
@@ -336,12 +409,31 @@ def replay(ctx, rp):
             print('  %s: %s' % (k, m))
         print(('VIOLATION property=C37 replay=%s' % ctx.replay_path) if probs else 'not reproduced')
         return 1 if probs else 0
+    if 'inst_update' in case:
+        spec = case['inst_update']
+        M = H.chain_model()
+        SC = {4: 'f4', 5: 'f5', 6: 'a6'}
+        inst = M._construct_instance({'f0': 1, 'f1': 2, 'f2': 3, 'f3': 4, 'f4': 1, 'f5': 2, 'f6': 3})
+        kw = dict((SC[int(f)], v) for f, v in spec['update'].items())
+        kw.update((SC[f], None) for f in spec['nulled'])
+        with H.Recorder() as rec:
+            inst.iff(**dict((SC[f], v) for f, v in spec['conds'])).update(**kw)
+        for t, prm in rec.calls:
+            print('  %s   %r' % (t, prm))
+        prob = inst_update_oracle(spec, rec.calls, [H.parse_statement(t) for t, _ in rec.calls])
+        print(('VIOLATION property=C37 replay=%s  (%s)' % (ctx.replay_path, prob[1])) if prob else 'not reproduced')
+        return 1 if prob else 0
     if 'chain' in case:
         M = H.chain_model()
         qs = H.apply_chain(M.objects, case['chain'])
         st = qs._select_query()
         text = str(st)
         probs = list(chain_oracle(st, text, st.get_context()))
+        ctxd = st.get_context()
+        fops = [o for o in case['chain'] if o[0] in ('filter', 'ftoken', 'fraw')]
+        for o_, fr in zip(fops, H.parse_statement(text)['parts'][0][1]):
+            if o_[0] == 'filter' and o_[4][0] == 'fn' and o_[2] != 2 and ctxd.get(str(fr[2][0])) != o_[4][2] - H.fn_off(o_[4]) * 60000:
+                probs.append(('instant', 'placeholder %s bound to %r, instant given %r' % (fr[2][0], ctxd.get(str(fr[2][0])), o_[4][2] - H.fn_off(o_[4]) * 60000)))
         print('replay chain %r -> %s %r' % (case['chain'], text, st.get_context()))
         print(('VIOLATION property=C37 replay=%s' % ctx.replay_path) if probs else 'not reproduced (select form)')
         return 1 if probs else 0
